@@ -133,7 +133,119 @@ func runRE4(c *Ctx, s *Sink) {
 			}
 			return true
 		})
+		if reScope(c, p, fd) {
+			re4Returns(c, s, p, fd, &n)
+		}
 	})
+}
+
+// re4Returns: the same clearing written as a return — 'return n, nil' in a function that holds the error of a stream read.
+func re4Returns(c *Ctx, s *Sink, p *packages.Package, fd *ast.FuncDecl, n *int) {
+	info := p.TypesInfo
+	if fd.Type.Results == nil || len(fd.Type.Results.List) == 0 {
+		return
+	}
+	res := fd.Type.Results.List
+	if !isErrorType(info.TypeOf(res[len(res)-1].Type)) {
+		return
+	}
+	// the error variable of a stream read
+	var obj types.Object
+	var readPos token.Pos
+	ast.Inspect(fd.Body, func(m ast.Node) bool {
+		if as, ok := m.(*ast.AssignStmt); ok && len(as.Rhs) == 1 && obj == nil {
+			if call, ok := ast.Unparen(as.Rhs[0]).(*ast.CallExpr); ok {
+				if is, _ := isStreamRead(info, call); is {
+					for _, l := range as.Lhs {
+						if o := rootObj(info, l); o != nil && isErrorType(o.Type()) {
+							obj, readPos = o, as.Pos()
+						}
+					}
+				}
+			}
+		}
+		return true
+	})
+	if obj == nil {
+		return
+	}
+	// only where the function holds one error: with several (one per probe, each tested where it is defined) a final nil says nothing of any of them
+	errs := map[types.Object]bool{}
+	ast.Inspect(fd.Body, func(m ast.Node) bool {
+		if as, ok := m.(*ast.AssignStmt); ok {
+			for _, l := range as.Lhs {
+				if o := rootObj(info, l); o != nil && isErrorType(o.Type()) {
+					errs[o] = true
+				}
+			}
+		}
+		return true
+	})
+	if len(errs) != 1 {
+		return
+	}
+	excludes := func(cond ast.Expr) bool {
+		// a disjunction with the disjunct err != io.EOF (or err != nil): falling through, the error is io.EOF (nil)
+		for _, d := range disjunctsOf(cond) {
+			if b, ok := ast.Unparen(d).(*ast.BinaryExpr); ok && b.Op == token.NEQ && rootObj(info, b.X) == obj {
+				if isObj(info, b.Y, "io", "EOF") {
+					return true
+				}
+				if id, ok := ast.Unparen(b.Y).(*ast.Ident); ok && id.Name == "nil" {
+					return true
+				}
+			}
+		}
+		return false
+	}
+	var visit func(list []ast.Stmt, guarded bool)
+	visit = func(list []ast.Stmt, guarded bool) {
+		g := guarded
+		for _, st := range list {
+			switch y := st.(type) {
+			case *ast.IfStmt:
+				inner := g || conjunctHasEOFTest(info, y.Cond, obj)
+				visit(y.Body.List, inner)
+				if blk, ok := y.Else.(*ast.BlockStmt); ok {
+					visit(blk.List, g || excludes(y.Cond))
+				}
+				// if C { …; return } with err != io.EOF among the disjuncts of C: what follows only sees io.EOF
+				if len(y.Body.List) > 0 {
+					if _, isRet := y.Body.List[len(y.Body.List)-1].(*ast.ReturnStmt); isRet && excludes(y.Cond) {
+						g = true
+					}
+				}
+			case *ast.ForStmt:
+				visit(y.Body.List, g)
+			case *ast.BlockStmt:
+				visit(y.List, g)
+			case *ast.ReturnStmt:
+				if y.Pos() < readPos || len(y.Results) == 0 {
+					continue
+				}
+				last := ast.Unparen(y.Results[len(y.Results)-1])
+				if id, ok := last.(*ast.Ident); !ok || id.Name != "nil" {
+					continue
+				}
+				*n++
+				key := fmt.Sprintf("%s:clear#%d", funcName(p, fd), *n)
+				if g {
+					s.Pass(nil, key, y.Pos(), "nil is returned in place of the error only when the error is io.EOF")
+				} else {
+					s.Fail(nil, key, y.Pos(), "nil is returned in place of a read error without requiring err == io.EOF: io.ErrUnexpectedEOF (truncated compressed input) or a checksum error reported once by the decompressor is swallowed and the truncated data is processed as a complete file")
+				}
+			}
+		}
+	}
+	visit(fd.Body.List, false)
+}
+
+func disjunctsOf(e ast.Expr) []ast.Expr {
+	e = ast.Unparen(e)
+	if b, ok := e.(*ast.BinaryExpr); ok && b.Op == token.LOR {
+		return append(disjunctsOf(b.X), disjunctsOf(b.Y)...)
+	}
+	return []ast.Expr{e}
 }
 
 func runRE5(c *Ctx, s *Sink) {
